@@ -23,6 +23,7 @@ package decision
 import (
 	"context"
 	"fmt"
+	"runtime"
 	"sort"
 	"strings"
 	"sync"
@@ -46,7 +47,7 @@ import (
 func TestVerifC36(t *testing.T) { vlib.Run("C36", vc36Run) }
 
 func vc36Run(c *vlib.Ctx) {
-	c.Rule("scripts of 6-40 ops {wantlist message (1..6 entries, wants <= limit: want-block/want-have x sendDontHave x priority, cancels, re-wants, v0/v1 alias, identity, oversize CIDs; full or incremental), add block+NotifyNewBlocks, remove block (drained points only), take an outbox channel early, deliver one envelope, drain to quiescence} over 1-3 peers x limit 1..32 x wantHaveReplaceSize {0,16,1024} x targetMessageSize {1,64,16384} x 1-3 task workers x optional request filter / per-peer byte backpressure / engine-wide DONT_HAVE off. Strata: seq (CID universe <= limit/2: neither overflow nor queue truncation possible), ovf-shaped (per peer a full ledger with 0-4 block-less wants, adjacent at the bottom of the priority order or scattered, priorities distinct/equal/narrow, then one overflow message with k-1..k+3 newcomers that outrank, tie with or lose against the existing wants), ovf-witness (DESIGN scenario), ovf-mixed (free overflow), full (full wantlists at any time), emptyblk (a zero-length block is stored), dupfull (universe == limit, few deliveries: re-wants/notifies hit a task queue that is at the limit), conc (peers, block adder and drainer on separate goroutines). distinct = FNV of config+script (conc: the observed per-peer response sequences); non-trivial = the run delivered >=1 block and >=1 HAVE/DONT_HAVE and had >=1 effective cancel or >=1 overflow rejection/eviction")
+	c.Rule("scripts of 6-40 ops {wantlist message (1..6 entries, wants <= limit: want-block/want-have x sendDontHave x priority, cancels, re-wants, v0/v1 alias, identity, oversize CIDs; full or incremental), add block+NotifyNewBlocks, remove block (drained points only), take an outbox channel early, deliver one envelope, drain to quiescence} over 1-3 peers x limit 1..32 x wantHaveReplaceSize {0,16,1024} x targetMessageSize {1,64,16384} x 1-3 task workers x optional request filter / per-peer byte backpressure / engine-wide DONT_HAVE off. Strata: seq (CID universe <= limit/2: neither overflow nor queue truncation possible), ovf-shaped (per peer a full ledger with 0-4 block-less wants, adjacent at the bottom of the priority order or scattered, priorities distinct/equal/narrow, then one overflow message with k-1..k+3 newcomers that outrank, tie with or lose against the existing wants), ovf-witness (DESIGN scenario), ovf-mixed (free overflow), full (full wantlists at any time), emptyblk (a zero-length block is stored), dupfull (universe == limit, few deliveries: re-wants/notifies hit a task queue that is at the limit), gc-race (blocks are removed at any time, also while tasks for them are queued, and re-added later; presence clauses relaxed for exactly those CIDs until the next quiescent point, liveness kept), conc (peers, block adder and drainer on separate goroutines). distinct = FNV of config+script (conc: the observed per-peer response sequences); non-trivial = the run delivered >=1 block and >=1 HAVE/DONT_HAVE and had >=1 effective cancel or >=1 overflow rejection/eviction")
 	c.Cases("seq", c.N(300, 12000), func(k *vlib.Case) { vc36Sequential(k, "seq") })
 	c.Cases("ovf-shaped", c.N(220, 7000), vc36OverflowShaped)
 	c.Cases("ovf-witness", 1, vc36OverflowWitness)
@@ -54,6 +55,7 @@ func vc36Run(c *vlib.Ctx) {
 	c.Cases("full", c.N(60, 2500), func(k *vlib.Case) { vc36Sequential(k, "full") })
 	c.Cases("emptyblk", c.N(30, 1000), func(k *vlib.Case) { vc36Sequential(k, "emptyblk") })
 	c.Cases("dupfull", c.N(60, 2500), func(k *vlib.Case) { vc36Sequential(k, "dupfull") })
+	c.Cases("gc-race", c.N(120, 4000), func(k *vlib.Case) { vc36Sequential(k, "gc-race") })
 	c.Cases("conc", c.N(120, 5000), vc36Concurrent)
 }
 
@@ -156,6 +158,11 @@ type vc36Resp struct {
 	sentEnd int64
 }
 
+type vc36EnvRec struct {
+	p          peer.ID
+	a, sentEnd int64
+}
+
 type vc36Held struct {
 	ch <-chan *Envelope
 	a  int64
@@ -183,7 +190,9 @@ type vc36World struct {
 	workers     int
 	seq         bool // exact (sequential) mode
 
-	clock atomic.Int64
+	clock  atomic.Int64
+	leaked  atomic.Int64 // active tasks declared leaked by stuckActive
+	starved atomic.Int64 // pending tasks that were stuck behind them at that moment
 
 	mu        sync.Mutex // protects everything below
 	storeTL   map[string]*vc36TL
@@ -197,6 +206,12 @@ type vc36World struct {
 	held      []vc36Held
 	truncated map[vc36PC]bool // a push for this (peer,cid) happened while pending+pushed > limit
 	staleFull map[vc36PC]bool // the entry was dropped by a full wantlist (protocol) and not re-wanted since
+	gcTaint   map[string]bool // gc-race: the multihash was removed while a task for it was queued or active (until the next quiescent point)
+	gcStale   map[vc36PC]bool // gc-race: this peer had such a task (until its next want for the CID)
+	gcHit     map[vc36PC]int64 // gc-race: end stamp of the last removal that found a task of this peer queued for the CID
+	gcRemoved map[string]int64 // gc-race: end stamp of the last removal of the multihash
+	envs      []vc36EnvRec     // delivered envelopes (peer, window start, end of Sent)
+	sdhNum    int              // wants carry sendDontHave with probability sdhNum/10
 	staleTask map[vc36PC]bool // a task was queued for the CID when a full wantlist dropped it (until the next quiescent point)
 	orphanAdd map[vc36PC]bool // when the block was announced, a task was queued for the CID although the ledger had no entry (NotifyNewBlocks cannot upgrade it)
 	orphan    map[vc36PC]bool // when a cancel arrived, the ledger had no entry for the CID although a task was queued
@@ -282,7 +297,7 @@ func vc36NewWorld(k *vlib.Case, cfg vc36Cfg, seq bool) *vc36World {
 		byCid: map[cid.Cid]*vc36Cid{}, deny: map[vc36PC]bool{}, workers: cfg.workers, seq: seq,
 		storeTL: map[string]*vc36TL{}, storeNow: map[string]bool{}, addOps: map[string][]*vc36Ev{},
 		wantTL: map[vc36PC]*vc36TL{}, wantOps: map[vc36PC][]vc36WantOp{},
-		model: map[peer.ID]map[cid.Cid]vc36ME{}, truncated: map[vc36PC]bool{}, staleFull: map[vc36PC]bool{}, orphan: map[vc36PC]bool{}, orphanAdd: map[vc36PC]bool{}, staleTask: map[vc36PC]bool{}, shape: map[peer.ID][]string{}}
+		model: map[peer.ID]map[cid.Cid]vc36ME{}, truncated: map[vc36PC]bool{}, staleFull: map[vc36PC]bool{}, orphan: map[vc36PC]bool{}, orphanAdd: map[vc36PC]bool{}, staleTask: map[vc36PC]bool{}, gcTaint: map[string]bool{}, gcStale: map[vc36PC]bool{}, gcHit: map[vc36PC]int64{}, gcRemoved: map[string]int64{}, sdhNum: 7, shape: map[peer.ID][]string{}}
 	for i := 0; i < cfg.nPeers; i++ {
 		p := peer.ID(fmt.Sprintf("peer-%c", 'A'+i))
 		w.peers = append(w.peers, p)
@@ -525,11 +540,164 @@ func (w *vc36World) removeBlock(u *vc36Cid) {
 	w.mu.Unlock()
 }
 
+// removeBlockRacy (stratum gc-race) removes a block at any time. A stale
+// HAVE / DONT_HAVE decision for a CID whose block vanished while a task for it
+// was queued is garbage-collection territory, not covered by the statement:
+// the presence clauses are relaxed for exactly those multihashes until the
+// next quiescent point. The liveness clauses are kept.
+func (w *vc36World) removeBlockRacy(u *vc36Cid) {
+	hit := map[vc36PC]bool{}
+	for _, p := range w.peers {
+		t := w.e.peerRequestQueue.PeerTopics(p)
+		if t == nil {
+			continue
+		}
+		for _, topic := range append(t.Pending, t.Active...) {
+			if v := w.byCid[topic.(cid.Cid)]; v != nil && v.mhKey == u.mhKey {
+				w.gcTaint[u.mhKey] = true
+				w.gcStale[vc36PC{p, v.c}] = true
+				hit[vc36PC{p, v.c}] = true
+			}
+		}
+	}
+	w.k.Logf("remove %s (tasks queued for it: %v)", u.name, w.gcTaint[u.mhKey])
+	if w.gcTaint[u.mhKey] {
+		w.k.C.Count("removals_while_task_queued", 1)
+	}
+	w.removeBlock(u)
+	end := w.clock.Load()
+	w.gcRemoved[u.mhKey] = end
+	for key := range w.gcStale {
+		if v := w.byCid[key.c]; v != nil && v.mhKey == u.mhKey && hit[key] {
+			w.gcHit[key] = end
+		}
+	}
+	w.checkLedgers("after remove", "")
+}
+
+// gcAbsorbed (stratum gc-race only): the block of (p,c) vanished while a task
+// of p for it was queued, and everything that could have created a fresh task
+// since (re-adds with NotifyNewBlocks, re-wants) happened while one envelope
+// to p was in flight. The stale task inside that envelope is still "active"
+// and, having been created for a present block, makes every new task look
+// redundant; it is finished when the envelope is sent. This follow-up of a
+// stale decision is garbage-collection territory like the stale decision
+// itself. An EMPTY envelope is never in flight (its tasks are finished at
+// once), so a leak there is not excused.
+func (w *vc36World) gcAbsorbed(p peer.ID, u *vc36Cid) bool {
+	key := vc36PC{p, u.c}
+	rem, ok := w.gcRemoved[u.mhKey]
+	if !ok || w.gcHit[key] != rem {
+		return false
+	}
+	lo, hi := int64(-1), int64(-1)
+	note := func(ev *vc36Ev) {
+		if ev.start <= rem {
+			return
+		}
+		if lo < 0 || ev.start < lo {
+			lo = ev.start
+		}
+		if ev.end > hi {
+			hi = ev.end
+		}
+	}
+	for _, ad := range w.addOps[u.mhKey] {
+		note(ad)
+	}
+	for _, op := range w.wantOps[key] {
+		note(op.ev)
+	}
+	if lo < 0 {
+		return false
+	}
+	for _, e := range w.envs {
+		if e.p == p && e.a < lo && e.sentEnd > hi {
+			w.k.C.Count("gc_readd_absorbed_by_inflight_envelope", 1)
+			return true
+		}
+	}
+	return false
+}
+
 // ---------------------------------------------------------------- outbox side
 
 func (w *vc36World) quiet() bool {
 	st := w.e.peerRequestQueue.Stats()
-	return st.NumPending == 0 && st.NumActive == 0
+	return st.NumPending <= int(w.starved.Load()) && st.NumActive <= int(w.leaked.Load())
+}
+
+// workersParked reports whether every task worker of the engine is parked in a
+// select (offering its next one-time channel, or waiting for work inside
+// nextEnvelope), i.e. none of them is building an envelope.
+func (w *vc36World) workersParked() bool {
+	buf := make([]byte, 1<<20)
+	buf = buf[:runtime.Stack(buf, true)]
+	n, parked := 0, 0
+	for _, g := range strings.Split(string(buf), "\n\n") {
+		if !strings.Contains(g, "decision.(*Engine).taskWorker(") {
+			continue
+		}
+		n++
+		if i := strings.Index(g, "["); i >= 0 && strings.HasPrefix(g[i:], "[select") {
+			parked++
+		}
+	}
+	return n == w.workers && parked == n
+}
+
+// stuckActive is consulted when nothing has arrived for a while although the
+// queue is not quiescent. It declares leaked active tasks only on corroborated
+// state, not on time: nothing pending, the same number of active tasks, no
+// envelope ready on any held channel and every task worker parked, in two
+// samples at least a second apart. (The tasks of a built envelope stay active
+// only until the harness calls Sent; a worker that builds one is not parked.)
+func (w *vc36World) stuckActive() bool {
+	// Pending tasks may exist too: leaked active work counts against the
+	// per-peer byte back-pressure, so nothing more is popped for that peer.
+	sample := func() (int, int, bool) {
+		st := w.e.peerRequestQueue.Stats()
+		if st.NumActive == 0 || (st.NumActive <= int(w.leaked.Load()) && st.NumPending <= int(w.starved.Load())) {
+			return 0, 0, false
+		}
+		if !w.workersParked() {
+			return 0, 0, false
+		}
+		w.mu.Lock()
+		defer w.mu.Unlock()
+		if len(w.held) == 0 {
+			return 0, 0, false // no worker has been let into nextEnvelope
+		}
+		for _, h := range w.held {
+			if len(h.ch) > 0 {
+				return 0, 0, false
+			}
+		}
+		st2 := w.e.peerRequestQueue.Stats()
+		return st.NumActive, st.NumPending, st2.NumPending == st.NumPending && st2.NumActive == st.NumActive
+	}
+	n1, p1, ok := sample()
+	if !ok {
+		return false
+	}
+	time.Sleep(1200 * time.Millisecond) // longer than the engine's 100ms re-pop ticker
+	n2, p2, ok := sample()
+	if !ok || n1 != n2 || p1 != p2 {
+		return false
+	}
+	var topics []string
+	for _, p := range w.peers {
+		if t := w.e.peerRequestQueue.PeerTopics(p); t != nil {
+			for _, c := range t.Active {
+				topics = append(topics, pn(p)+":"+w.name(c.(cid.Cid)))
+			}
+		}
+	}
+	sort.Strings(topics)
+	w.k.Fail("active-tasks-leaked", "popped tasks are finished (TasksDone) once their envelope is sent or dropped", "no active task while no envelope is in flight and every task worker is parked", fmt.Sprintf("%d active tasks %v, %d pending, no envelope on the held channels, all %d task workers parked in select (two samples 1.2s apart)", n2, topics, p2, w.workers))
+	w.leaked.Store(int64(n2))
+	w.starved.Store(int64(p2))
+	return true
 }
 
 func (w *vc36World) nHeld() int {
@@ -604,6 +772,9 @@ func (w *vc36World) deliverOne() bool {
 		} else {
 			time.Sleep(200 * time.Microsecond)
 		}
+		if spins > 0 && spins%3000 == 0 && w.stuckActive() {
+			return false // treated as quiescent from here on; the liveness clauses still run
+		}
 	}
 }
 
@@ -676,7 +847,7 @@ func (w *vc36World) process(env *Envelope, a int64) {
 			line = append(line, "HAVE "+u.name)
 			w.nHaves++
 			newResps = append(newResps, vc36Resp{p: p, c: c, kind: 'H', a: a})
-			if !w.stl(u.mhKey).possibly(true, a, b) {
+			if !w.gcTaint[u.mhKey] && !w.stl(u.mhKey).possibly(true, a, b) {
 				k.Fail("have-absent", "HAVE only for present blocks", u.name+" stored at some instant of "+win, "store time-line "+w.storeTL[u.mhKey].String())
 			}
 			if !w.wtl(p, c).possibly(true, a, b) {
@@ -701,10 +872,10 @@ func (w *vc36World) process(env *Envelope, a int64) {
 			if !anySDH {
 				k.Fail("donthave-unrequested", "DONT_HAVE only when the peer asked for it (send_dont_have)", "a want with sendDontHave for "+u.name, "want time-line "+w.wtl(p, c).String())
 			}
-			if !w.engineSDH {
+			if !w.engineSDH && !w.gcTaint[u.mhKey] {
 				k.Fail("donthave-disabled", "no DONT_HAVE when the engine is configured not to send them", "none", "DONT_HAVE "+u.name)
 			}
-			if !w.deny[vc36PC{p, c}] && !w.dontHaveLegit(p, u, a, b) {
+			if !w.deny[vc36PC{p, c}] && !w.gcTaint[u.mhKey] && !w.dontHaveLegit(p, u, a, b) {
 				k.Fail("donthave-present"+w.pcFeature(p, u), "DONT_HAVE only for absent blocks", fmt.Sprintf("%s absent at intake of a want or at some later instant up to %d", u.name, b), "present throughout: store time-line "+w.storeTL[u.mhKey].String()+"; want time-line "+w.wtl(p, c).String())
 			}
 		default:
@@ -736,6 +907,7 @@ func (w *vc36World) process(env *Envelope, a int64) {
 		newResps[i].sentEnd = s1
 	}
 	w.resps = append(w.resps, newResps...)
+	w.envs = append(w.envs, vc36EnvRec{p, a, s1})
 	if w.seq {
 		for _, blk := range blks {
 			delete(w.model[p], blk.Cid())
@@ -918,7 +1090,7 @@ func (w *vc36World) checkTasks(where string) {
 		}
 		for c := range w.engineLedger(p) {
 			u := w.byCid[c]
-			if u == nil || !w.hasBlock(u) || have[c] {
+			if u == nil || !w.hasBlock(u) || have[c] || w.gcAbsorbed(p, u) {
 				continue
 			}
 			w.k.Fail("task-missing"+w.pcFeature(p, u), "every accepted want whose block is present has a queued task", fmt.Sprintf("task for %s of %s %s", u.name, pn(p), where), fmt.Sprintf("ledger %s, no pending/active task", w.fmtLedger(w.engineLedger(p))))
@@ -959,7 +1131,18 @@ func (w *vc36World) seqMsg(p peer.ID, full bool, es []vc36Entry) {
 		}
 		wants[e.u.c] = e
 	}
+	queued := map[cid.Cid]bool{}
+	if t := w.e.peerRequestQueue.PeerTopics(p); t != nil {
+		for _, topic := range append(t.Pending, t.Active...) {
+			queued[topic.(cid.Cid)] = true
+		}
+	}
 	for c := range wants {
+		if !queued[c] {
+			// a fresh task will be created; a want that merges into the stale
+			// task of a vanished block inherits its fate (gc-race leniency)
+			delete(w.gcStale, vc36PC{p, c})
+		}
 		delete(w.staleFull, vc36PC{p, c})
 	}
 
@@ -1167,6 +1350,7 @@ func (w *vc36World) seqQuiesce(where string) {
 	// no task survives a quiescent point: task-related trigger marks end here
 	clear(w.staleTask)
 	clear(w.orphanAdd)
+	clear(w.gcTaint)
 }
 
 func (w *vc36World) checkAnswered() {
@@ -1212,6 +1396,9 @@ func (w *vc36World) checkAnswered() {
 					f = "/dont-have-and-have-in-flight"
 				}
 			}
+			if present && w.gcAbsorbed(p, u) {
+				continue
+			}
 			if present {
 				var seen []string
 				answered := false
@@ -1234,7 +1421,7 @@ func (w *vc36World) checkAnswered() {
 				k.Fail("unanswered/present"+f, "every accepted want is answered by quiescence (block present => block, or HAVE for a want-have)", fmt.Sprintf("%s of %s for %s answered and removed from the ledger", typ, pn(p), u.name), fmt.Sprintf("still in the ledger at quiescence; responses since the last want: %v; want time-line %s", seen, w.wtl(p, c).String()))
 				continue
 			}
-			if last.sdh && w.engineSDH {
+			if last.sdh && w.engineSDH && !w.gcStale[key] {
 				ok := false
 				for _, r := range w.resps {
 					if r.p == p && r.c == c && r.sentEnd >= last.ev.start {
@@ -1281,7 +1468,7 @@ func vc36PickCfg(k *vlib.Case, stratum string) vc36Cfg {
 		nOversize:   r.Intn(2),
 	}
 	switch stratum {
-	case "seq", "full", "emptyblk", "conc":
+	case "seq", "full", "emptyblk", "conc", "gc-race":
 		cfg.limit = vlib.Pick(r, []int{2, 3, 4, 5, 6, 8, 12, 16, 24, 32})
 		cfg.nCids = r.Range(1, cfg.limit/2)
 		if cfg.nCids > 8 {
@@ -1328,7 +1515,7 @@ func (w *vc36World) genEntries(r *vlib.Rand, p peer.ID, maxWants int, prioHi int
 		if r.Chance(2, 5) {
 			typ = pb.Message_Wantlist_Have
 		}
-		es = append(es, vc36Entry{u: u, prio: int32(r.Range(0, prioHi)), typ: typ, sdh: r.Chance(7, 10)})
+		es = append(es, vc36Entry{u: u, prio: int32(r.Range(0, prioHi)), typ: typ, sdh: r.Chance(w.sdhNum, 10)})
 	}
 	if len(es) == 0 {
 		h := w.univ[r.Intn(len(w.univ))]
@@ -1346,8 +1533,11 @@ func vc36Sequential(k *vlib.Case, stratum string) {
 
 	maxWants := cfg.limit
 	switch stratum {
-	case "seq", "full", "emptyblk":
+	case "seq", "full", "emptyblk", "gc-race":
 		maxWants = cfg.limit / 2
+	}
+	if stratum == "gc-race" {
+		w.sdhNum = 3
 	}
 	// initial store content
 	for _, u := range w.univ {
@@ -1359,9 +1549,38 @@ func vc36Sequential(k *vlib.Case, stratum string) {
 	if stratum == "dupfull" {
 		deliverW, drainW, takeW = 4, 4, 3
 	}
+	if stratum == "gc-race" {
+		deliverW, drainW, takeW = 8, 8, 3
+	}
+	shapeAt := -1
+	if stratum == "gc-race" && r.Chance(2, 3) {
+		shapeAt = r.Intn(8)
+	}
 	sentFirst := map[peer.ID]bool{}
 	n := r.Range(6, 40)
 	for i := 0; i < n && !k.C.Aborted(); i++ {
+		if i == shapeAt {
+			// steered shape: a want-block without sendDontHave for a stored block,
+			// the block vanishes while the task is queued, a worker pops it (empty
+			// envelope), then the block comes back and is announced
+			h := w.honest()
+			u := h[r.Intn(len(h))]
+			p := w.peers[r.Intn(len(w.peers))]
+			if !w.deny[vc36PC{p, u.c}] {
+				if !w.storeNow[u.mhKey] {
+					w.seqAdd(u)
+				}
+				w.seqMsg(p, false, []vc36Entry{{u: u, prio: int32(r.Range(0, 4)), typ: pb.Message_Wantlist_Block, sdh: r.Chance(1, 5)}})
+				w.removeBlockRacy(u)
+				if r.Chance(4, 5) {
+					w.seqQuiesce("shape: let a worker pop the task of the vanished block")
+				}
+				if r.Chance(1, 3) {
+					w.seqMsg(p, false, []vc36Entry{{u: u, prio: int32(r.Range(0, 4)), typ: pb.Message_Wantlist_Block, sdh: false}})
+				}
+				w.seqAdd(u)
+			}
+		}
 		op := r.Intn(50 + 14 + 6 + deliverW + drainW + takeW)
 		switch {
 		case op < 50:
@@ -1385,6 +1604,10 @@ func vc36Sequential(k *vlib.Case, stratum string) {
 				}
 			}
 			if len(present) == 0 {
+				continue
+			}
+			if stratum == "gc-race" {
+				w.removeBlockRacy(present[r.Intn(len(present))])
 				continue
 			}
 			w.seqQuiesce("before a removal")
